@@ -13,10 +13,9 @@ def run(tier):
     if logs:
         c.sample({"direction": "code->spec", "log_event": logs[0]})
     sc.sample_round(c, ev)
-    if tier == "thorough":
-        vlib.build_repo_bins()
-        from checks import proccommon
-        proccommon.binary_leak_stage(c)
+    # the real binary's own output (start-up banner, configuration display, shutdown) and datagrams, file and env sources
+    from checks import proccommon
+    proccommon.binary_leak_stage(c, full=(tier == "thorough"))
     c.rule = ("code->spec: for several seeds x every log level Off..Trace x fault_percentage {0,50}: valid, invalid and fault-injected traffic on an "
               "in-process server with a capturing logger; every datagram and every formatted log record scanned for the seed, SHA-512(seed)[0..32] and "
               "the clamped private scalar in raw, lower/upper hex and base64 (standard and url-safe) forms; the scan result is a fact, TLC rejects any "
